@@ -457,8 +457,15 @@ func (rc *runCtx) runChunk(ph fw.Phase, lo, hi int, prefix string) int {
 		delete(livePids, cmd.Process.Pid)
 		liveMu.Unlock()
 	}()
-	if ph.MemMB > 0 && !ph.Race {
-		lim := syscall.Rlimit{Cur: uint64(ph.MemMB) << 20, Max: uint64(ph.MemMB) << 20}
+	if !ph.Race {
+		// every worker runs under an address-space limit (the sandbox has none): a runaway
+		// allocation ends that worker with the runtime's own out-of-memory report instead of
+		// inviting the kernel's OOM killer to pick some other process
+		memMB := ph.MemMB
+		if memMB <= 0 {
+			memMB = 8192
+		}
+		lim := syscall.Rlimit{Cur: uint64(memMB) << 20, Max: uint64(memMB) << 20}
 		prlimit(cmd.Process.Pid, 9 /* RLIMIT_AS */, &lim)
 	}
 	timeout := time.Duration(ph.TimeoutS) * time.Second
@@ -520,6 +527,18 @@ func (rc *runCtx) runChunk(ph fw.Phase, lo, hi int, prefix string) int {
 		rc.a.inconcl = append(rc.a.inconcl, fw.Rec{T: "inconc", Phase: ph.Name, Case: cur.Case, Sig: "watchdog", Detail: "wall-clock watchdog fired; " + firstLines(stderr, 5), Input: cur.Input})
 		rc.a.mu.Unlock()
 		return cur.Case + 1
+	}
+	if ee, ok := werr.(*exec.ExitError); ok {
+		if ws, ok := ee.Sys().(syscall.WaitStatus); ok && ws.Signaled() && ws.Signal() == syscall.SIGKILL {
+			// killed from outside (the kernel's OOM killer, an operator): nothing the code under
+			// test did is observed here - a Go panic or fatal error ends the process with an exit
+			// status and a report on stderr, never with SIGKILL
+			rc.a.mu.Lock()
+			rc.a.tags["inconclusive:worker-killed-from-outside"]++
+			rc.a.inconcl = append(rc.a.inconcl, fw.Rec{T: "inconc", Phase: ph.Name, Case: cur.Case, Sig: "worker-killed-from-outside", Detail: "the worker process was ended by SIGKILL that this orchestrator did not send (out-of-memory killer?); " + firstLines(stderr, 3), Input: cur.Input})
+			rc.a.mu.Unlock()
+			return cur.Case + 1
+		}
 	}
 	class, sig := classifyCrash(stderr)
 	rc.a.mu.Lock()
